@@ -6,6 +6,7 @@ open Qvnt
 #print axioms C07_born_total
 #print axioms C07_drawn_positive
 #print axioms C07_scale_invariant
+#print axioms C07_possible
 #print axioms C07_conditional
 #print axioms C07_chain
 #print axioms C07_order
